@@ -2,6 +2,7 @@ import ActsModel.Model.Expr
 import ActsModel.Model.Tree
 import ActsModel.Gen.Emit
 import ActsModel.Gen.Consts
+import ActsModel.Model.Scope
 
 /-!
 Operational model of the scheduler: a transcription of `Task::exec / init / run / next / review / update`,
@@ -174,16 +175,14 @@ def ancestorsOf (p : Proc) (t : Task) : List Task :=
 
 -- ------------------------------------------------------------------ data (`task.rs:256-311, 979-1082`)
 
-def isPrivateRegex (k : String) : Bool := Consts.priKeyPrefixes.any fun pre => k.startsWith pre
-
 def nodeInputs (p : Proc) (n : Node) : Vars := if n.kind == .workflow then p.model.inputs else n.inputs
 def nodeOutputs (p : Proc) (n : Node) : Vars := if n.kind == .workflow then p.model.outputs else n.outputs
 
-/-- `Task::find`: own data, then ancestors nearest first; a key present with `null` is found -/
-def findVar (p : Proc) (t : Task) (k : String) : Option Json :=
-  match t.data.get k with
-  | some v => some v
-  | none => (ancestorsOf p t).findSome? fun a => a.data.get k
+/-- the scope chain of a task: its own data, then the ancestors' nearest first -/
+def chainOf (p : Proc) (t : Task) : Scope.Chain := t.data :: (ancestorsOf p t).map (·.data)
+
+/-- `Task::find` = `Scope.find` on the task's chain; a key present with `null` is found -/
+def findVar (p : Proc) (t : Task) (k : String) : Option Json := Scope.find (chainOf p t) k
 
 def flagOf (t : Task) (k : String) (dflt : Bool) : Bool :=
   match t.data.get k with
@@ -216,24 +215,17 @@ def inputsOf (p : Proc) (t : Task) : Vars :=
   | none => fromPrev
   | some n => Vars.setAll (Vars.setAll [] fromPrev) (nodeInputs p n)
 
-/-- `Task::update_data`: every non-private key goes to the *outermost* ancestor that holds it, then all keys are set on
-the task itself -/
+/-- `Task::update_data` = `Scope.update` on the task's chain, key by key, written back to the tasks of the chain -/
 def updateData (tid : Nat) (vs : Vars) : M Unit := do
-  let w ← get
-  let t ← getTask tid
-  let anc := (ancestorsOf w.p t).reverse       -- root first
   for (k, v) in vs do
-    if !isPrivateRegex k then
-      let w ← get
-      match anc.find? fun a => match w.p.tasks.find? (·.tid == a.tid) with
-          | some cur => cur.data.has k
-          | none => false with
-      | some a =>
-        let cur ← getTask a.tid
-        putTask { cur with data := Vars.set cur.data k v }
-      | none => pure ()
-  let t ← getTask tid
-  putTask { t with data := Vars.setAll t.data vs }
+    let w ← get
+    let t ← getTask tid
+    let anc := ancestorsOf w.p t
+    let chain' := Scope.update (chainOf w.p t) k v
+    let ids := tid :: anc.map (·.tid)
+    for (i, d) in ids.zip chain' do
+      let cur ← getTask i
+      putTask { cur with data := d }
 
 def setData (tid : Nat) (vs : Vars) : M Unit := do
   let t ← getTask tid
